@@ -44,7 +44,7 @@ COMMON = {
         "UpdateTSO is only driven by the updater daemon, which skips uninitialised allocators and allocators whose "
         "leadership check fails; an UpdateTSO/Initialize error makes the caller reset the allocator group (both "
         "emulated by the harness as the production callers do it)",
-        "theorems exclude a SetTSO whose save is applied but reported as failed (Op.faithful; known finding F14)",
+        "theorems exclude a SetTSO whose save is applied but reported as failed (Op.faithful; known finding F16)",
         "saveInterval > 1 ms (UpdateTimestampGuard); 64-bit wrap-around not modelled",
         "the clock is injected with go build -overlay (time.Now/Since/Sleep tokens of tso.go and global_allocator.go), "
         "nothing in /repo is edited",
